@@ -262,22 +262,28 @@ def evRead (s : St C) : St C × Int × Bytes :=
     if recoverable err = false then (disconnect { s with error := err }, r.2.1, [])
     else (disconnect { s with error := Gen.Zl.eConnReset }, r.2.1, [])   -- "Socket closed by remote host."
 
-/-- the application's loop around xmpp_run_once for as long as select() reports the socket
-    readable.  Each call is a whole iteration: the send half (lower transport accepting
-    everything), then — the connection still being up — the read branch
-    (`FD_ISSET(sock, &rfds) || intf->pending(intf)`).  Once the socket is drained select() reports
-    nothing and xmpp_run_once returns ("no events happened") BEFORE it looks at `intf->pending`;
-    without TLS, input still waiting in the decompression buffer is therefore only picked up by
-    the next socket event.  Returns the plaintext handed to parser_feed and the `read` results. -/
+/-- one whole xmpp_run_once(ctx, 0) for this connection (no TLS): the send half, then "find
+    events to watch / select": the socket is readable iff the lower transport has unread bytes or
+    saw EOF.  When select() reports nothing the function returns ("no events happened") BEFORE it
+    looks at `intf->pending`, so input still waiting in the decompression buffer is only picked up
+    together with the next socket event.  Returns the plaintext handed to parser_feed and the
+    result of `intf->read` if it was called. -/
+def runOnce (wfuel : Nat) (s : St C) : St C × Bytes × List Int :=
+  let s := runOnceSend wfuel s
+  if s.connected && readable s then
+    let r := evRead s
+    (r.1, r.2.2, [r.2.1])
+  else (s, [], [])
+
+/-- the application's loop around xmpp_run_once (lower transport accepting every write): again
+    and again until a call ends without having read anything -/
 def readLoop (wfuel : Nat) : Nat → St C → Bytes → List Int → St C × Bytes × List Int
   | 0, s, acc, rets => ({ s with diverged := true }, acc, rets)
   | fuel + 1, s, acc, rets =>
-    if s.connected && readable s then
-      let s := runOnceSend wfuel { s with sched := [] }
-      if s.connected then
-        let r := evRead s
-        readLoop wfuel fuel r.1 (acc ++ r.2.2) (rets ++ [r.2.1])
-      else (s, acc, rets)
+    if s.connected then
+      let r := runOnce wfuel { s with sched := [] }
+      if r.2.2.isEmpty then (r.1, acc, rets)
+      else readLoop wfuel fuel r.1 (acc ++ r.2.1) (rets ++ r.2.2)
     else (s, acc, rets)
 
 /-- a compressed fragment reaches the socket -/
